@@ -259,6 +259,8 @@ func (m Mut) String() string {
 		return fmt.Sprintf("flip@%d.%d", m.Off, m.Bit)
 	case "field", "fieldfix":
 		return fmt.Sprintf("%s:%s<-%d", m.Kind, m.Field, m.Val)
+	case "grow":
+		return fmt.Sprintf("grow:sec%d+%d", m.Off, m.Len)
 	}
 	return fmt.Sprintf("%s@%d/%d/%d", m.Kind, m.Off, m.Len, m.Val)
 }
@@ -384,6 +386,28 @@ func (l *Layout) ApplyMuts(muts []Mut) []byte {
 		case "drop":
 			if m.Off >= 0 && m.Off+int64(m.Len) <= int64(len(img)) && m.Len > 0 {
 				img = append(img[:m.Off], img[m.Off+int64(m.Len):]...)
+			}
+		case "grow":
+			// extra bytes INSIDE section m.Off (an index into the sections): m.Len seeded bytes are inserted
+			// at the end of its block, its length prefix is raised to match and, in a CARv2, the payload size
+			// and index offset follow - a container that is consistent except for that one block
+			if i := int(m.Off); i >= 0 && i < len(l.Payload.Sections) && int64(len(img)) == int64(len(l.Image)) {
+				s := l.Payload.Sections[i]
+				start := l.DataOffset + s.Off
+				end := start + int64(s.LenSize+s.CidLen+s.DataLen)
+				nl := PutUvarint(uint64(s.CidLen + s.DataLen + m.Len))
+				out := append([]byte{}, img[:start]...)
+				out = append(out, nl...)
+				out = append(out, img[start+int64(s.LenSize):end]...)
+				out = append(out, NewRng(m.Val).Bytes(m.Len)...)
+				out = append(out, img[end:]...)
+				if delta := int64(len(out) - len(img)); l.Spec.V2 && len(out) >= 51 {
+					binary.LittleEndian.PutUint64(out[35:], uint64(l.DataSize+delta))
+					if l.IndexOffset != 0 {
+						binary.LittleEndian.PutUint64(out[43:], uint64(l.IndexOffset+delta))
+					}
+				}
+				img = out
 			}
 		case "append":
 			img = append(img, NewRng(m.Val).Bytes(m.Len)...)
